@@ -29,7 +29,8 @@ type grpcOp struct {
 	Kind  string `json:"kind"`
 	Grant bool   `json:"grant"`
 	Err   bool   `json:"err"`
-	Cls   string `json:"cls"`
+	Cls    string `json:"cls"`
+	LeCode string `json:"lecode"`
 }
 
 // grpcRec is the shared recorder of the doubles of one intercepted operation.
@@ -106,75 +107,96 @@ func clsOf(s string) grpclimit.ResponseType {
 	return grpclimit.ResponseTypeSuccess
 }
 
-// runGrpcOp executes one intercepted operation on the real interceptors and returns the observation
-// record of spec/Grpc.tla.
-func runGrpcOp(cfg grpcCfg, op grpcOp) (obs J, err error) {
+// grpcStack is one set of interceptors (unary server, unary client, stream) built once from a configuration
+// and used for a whole sequence of operations; the doubles read the current operation from it.
+type grpcStack struct {
+	rec *grpcRec
+	op  grpcOp
+	us  golangGrpc.UnaryServerInterceptor
+	uc  golangGrpc.UnaryClientInterceptor
+	ss  golangGrpc.StreamServerInterceptor
+}
+
+func leCode(req interface{}) codes.Code {
+	if s, _ := req.(string); s == "Aborted" {
+		return codes.Aborted
+	}
+	return codes.Unavailable
+}
+
+func newGrpcStack(cfg grpcCfg) *grpcStack {
+	st := &grpcStack{rec: &grpcRec{}}
+	le := func(ctx context.Context, method string, req interface{}, l core.Limiter) (interface{}, codes.Code, error) {
+		return nil, leCode(req), fmt.Errorf("custom limit exceeded")
+	}
+	uopts := []grpclimit.InterceptorOption{grpclimit.WithLimiter(&recLimiter{"main", st.rec})}
+	sopts := []grpclimit.StreamInterceptorOption{
+		grpclimit.WithStreamRecvLimiter(&recLimiter{"recv", st.rec}), grpclimit.WithStreamSendLimiter(&recLimiter{"send", st.rec})}
+	if cfg.CustomLE {
+		uopts = append(uopts, grpclimit.WithLimitExceededResponseClassifier(le))
+		sopts = append(sopts, grpclimit.WithStreamRecvLimitExceededResponseClassifier(le), grpclimit.WithStreamSendLimitExceededResponseClassifier(le))
+	}
+	if cfg.Custom {
+		uopts = append(uopts, grpclimit.WithServerResponseTypeClassifier(func(ctx context.Context, req interface{}, info *golangGrpc.UnaryServerInfo, resp interface{}, err error) grpclimit.ResponseType {
+			return clsOf(st.op.Cls)
+		}), grpclimit.WithClientResponseTypeClassifier(func(ctx context.Context, method string, req, reply interface{}, err error) grpclimit.ResponseType {
+			return clsOf(st.op.Cls)
+		}))
+		f := func(ctx context.Context, req interface{}, info *golangGrpc.StreamServerInfo, err error) grpclimit.ResponseType {
+			return clsOf(st.op.Cls)
+		}
+		sopts = append(sopts, grpclimit.WithStreamClientResponseTypeClassifier(f), grpclimit.WithStreamServerResponseTypeClassifier(f))
+	}
+	st.us = grpclimit.UnaryServerInterceptor(uopts...)
+	st.uc = grpclimit.UnaryClientInterceptor(uopts...)
+	st.ss = grpclimit.StreamServerInterceptor(sopts...)
+	return st
+}
+
+// run executes one intercepted operation on the real interceptors and returns the observation record of
+// spec/Grpc.tla. The request / message is the status code name the custom limit-exceeded classifier must choose.
+func (st *grpcStack) run(op grpcOp) (obs J, err error) {
 	defer func() {
 		if r := recover(); r != nil {
 			err = fmt.Errorf("panic: %v", r)
 		}
 	}()
-	rec := &grpcRec{grant: op.Grant}
+	rec := st.rec
+	rec.mu.Lock()
+	rec.asked, rec.completed, rec.ran, rec.grant = nil, nil, 0, op.Grant
+	rec.mu.Unlock()
+	st.op = op
 	var inner error
 	if op.Err {
 		inner = errInner
-	}
-	le := func(ctx context.Context, method string, req interface{}, l core.Limiter) (interface{}, codes.Code, error) {
-		return nil, codes.Unavailable, fmt.Errorf("custom limit exceeded")
 	}
 	resp := &struct{ x int }{7}
 	var ret error
 	var gotResp interface{}
 	ctx := context.Background()
+	req := op.LeCode
 	switch op.Kind {
-	case "unaryServer", "unaryClient":
-		opts := []grpclimit.InterceptorOption{grpclimit.WithLimiter(&recLimiter{"main", rec})}
-		if cfg.CustomLE {
-			opts = append(opts, grpclimit.WithLimitExceededResponseClassifier(le))
-		}
-		if cfg.Custom {
-			opts = append(opts, grpclimit.WithServerResponseTypeClassifier(func(ctx context.Context, req interface{}, info *golangGrpc.UnaryServerInfo, resp interface{}, err error) grpclimit.ResponseType {
-				return clsOf(op.Cls)
-			}), grpclimit.WithClientResponseTypeClassifier(func(ctx context.Context, method string, req, reply interface{}, err error) grpclimit.ResponseType {
-				return clsOf(op.Cls)
-			}))
-		}
-		if op.Kind == "unaryServer" {
-			ic := grpclimit.UnaryServerInterceptor(opts...)
-			gotResp, ret = ic(ctx, "req", &golangGrpc.UnaryServerInfo{FullMethod: "/svc/M"}, func(ctx context.Context, req interface{}) (interface{}, error) {
-				rec.mu.Lock()
-				rec.ran++
-				rec.mu.Unlock()
-				return resp, inner
-			})
-		} else {
-			ic := grpclimit.UnaryClientInterceptor(opts...)
-			ret = ic(ctx, "/svc/M", "req", resp, nil, func(ctx context.Context, method string, req, reply interface{}, cc *golangGrpc.ClientConn, opts ...golangGrpc.CallOption) error {
-				rec.mu.Lock()
-				rec.ran++
-				rec.mu.Unlock()
-				return inner
-			})
-			gotResp = resp
-		}
+	case "unaryServer":
+		gotResp, ret = st.us(ctx, req, &golangGrpc.UnaryServerInfo{FullMethod: "/svc/M"}, func(ctx context.Context, req interface{}) (interface{}, error) {
+			rec.mu.Lock()
+			rec.ran++
+			rec.mu.Unlock()
+			return resp, inner
+		})
+	case "unaryClient":
+		ret = st.uc(ctx, "/svc/M", req, resp, nil, func(ctx context.Context, method string, req, reply interface{}, cc *golangGrpc.ClientConn, opts ...golangGrpc.CallOption) error {
+			rec.mu.Lock()
+			rec.ran++
+			rec.mu.Unlock()
+			return inner
+		})
+		gotResp = resp
 	case "recv", "send":
-		opts := []grpclimit.StreamInterceptorOption{
-			grpclimit.WithStreamRecvLimiter(&recLimiter{"recv", rec}), grpclimit.WithStreamSendLimiter(&recLimiter{"send", rec})}
-		if cfg.CustomLE {
-			opts = append(opts, grpclimit.WithStreamRecvLimitExceededResponseClassifier(le), grpclimit.WithStreamSendLimitExceededResponseClassifier(le))
-		}
-		if cfg.Custom {
-			f := func(ctx context.Context, req interface{}, info *golangGrpc.StreamServerInfo, err error) grpclimit.ResponseType {
-				return clsOf(op.Cls)
-			}
-			opts = append(opts, grpclimit.WithStreamClientResponseTypeClassifier(f), grpclimit.WithStreamServerResponseTypeClassifier(f))
-		}
-		ic := grpclimit.StreamServerInterceptor(opts...)
-		ret = ic(nil, &fakeStream{ctx: ctx, r: rec, err: inner}, &golangGrpc.StreamServerInfo{FullMethod: "/svc/S"}, func(srv interface{}, ss golangGrpc.ServerStream) error {
+		ret = st.ss(nil, &fakeStream{ctx: ctx, r: rec, err: inner}, &golangGrpc.StreamServerInfo{FullMethod: "/svc/S"}, func(srv interface{}, ss golangGrpc.ServerStream) error {
 			if op.Kind == "recv" {
-				return ss.RecvMsg("m")
+				return ss.RecvMsg(req)
 			}
-			return ss.SendMsg("m")
+			return ss.SendMsg(req)
 		})
 		gotResp = resp
 	default:
@@ -198,6 +220,8 @@ func runGrpcOp(cfg grpcCfg, op grpcOp) (obs J, err error) {
 	completed := append([]J{}, rec.completed...)
 	return J{"asked": asked, "ran": rec.ran, "completed": completed, "code": code, "same": same}, nil
 }
+
+func runGrpcOp(cfg grpcCfg, op grpcOp) (J, error) { return newGrpcStack(cfg).run(op) }
 
 // TestGrpcCases executes every case TLC enumerated from spec/GrpcMC.tla on the real interceptors.
 func TestGrpcCases(t *testing.T) {
@@ -240,10 +264,17 @@ func TestGrpcRandom(t *testing.T) {
 	r := newRng(seed(), 77)
 	kinds := []string{"unaryServer", "unaryClient", "recv", "send", "recv", "send"}
 	cls := []string{"success", "ignore", "dropped"}
+	var cfg grpcCfg
+	var st *grpcStack
 	for k := 0; k < n; k++ {
-		cfg := grpcCfg{Custom: r.chance(1, 2), CustomLE: r.chance(1, 2)}
-		op := grpcOp{Kind: r.pick(kinds), Grant: r.chance(3, 4), Err: r.chance(1, 2), Cls: r.pick(cls)}
-		obs, err := runGrpcOp(cfg, op)
+		if k%25 == 0 {
+			// a new set of interceptors; the next 25 operations (a sequence of unary calls and of RecvMsg / SendMsg on
+			// streams of the same interceptor) all go through it
+			cfg = grpcCfg{Custom: r.chance(1, 2), CustomLE: r.chance(1, 2)}
+			st = newGrpcStack(cfg)
+		}
+		op := grpcOp{Kind: r.pick(kinds), Grant: r.chance(3, 5), Err: r.chance(1, 2), Cls: r.pick(cls), LeCode: []string{"Unavailable", "Aborted"}[r.intn(2)]}
+		obs, err := st.run(op)
 		if err != nil {
 			obs = J{"asked": []string{}, "ran": -1, "completed": []J{}, "code": err.Error(), "same": false}
 		}
